@@ -1351,7 +1351,7 @@ impl Property for C13 {
     }
 
     fn cases(&self, tier: Tier) -> u64 {
-        tier.pick(6_000_000, 40_000_000)
+        tier.pick(6_000_000, 400_000_000)
     }
 
     fn run_tape(&self, tape: &[u8], ctx: &mut Ctx) -> Result<(), Failure> {
